@@ -20,7 +20,44 @@ struct Made {
 };
 
 // 0..max_objects objects in the domain the formats share (see C02), encoded under generated encoding choices
-inline Made small_file(Src& s, int fmt, size_t max_objects = 8, bool changesets = true, size_t min_objects = 0) {
+// one inconsistency for the PBF encoder's hostile mode (see enc::PbfEncoder::Hostile)
+inline enc::PbfEncoder::Hostile gen_hostile(Src& s) {
+    enc::PbfEncoder::Hostile h;
+    static const uint64_t sids[] = {1000, 100000, 0x7fffffffULL, 0x80000000ULL, 0xffffffffULL, 0x100000000ULL, ~0ULL, ~0ULL - 1, ~0ULL - 2, static_cast<uint64_t>(INT32_MIN), 1ULL << 63, 0};
+    switch (s.weighted({5, 4, 2, 1, 1})) {
+        case 0:
+            h.sid_at = static_cast<int>(s.draw(16));
+            h.sid_value = sids[s.draw(sizeof(sids) / sizeof(sids[0]))];
+            break;
+        case 1:
+            h.packed_at = static_cast<int>(s.draw(16));
+            h.packed_how = static_cast<int>(s.draw(4));
+            break;
+        case 2: {
+            h.rawsize_at = static_cast<int>(s.draw(3));
+            static const int64_t deltas[] = {-1, 1, -100, 100, 65536, 1 << 20};
+            static const int64_t abss[] = {0, 1, 0x7fffffff, 32 * 1024 * 1024, 32 * 1024 * 1024 + 1, 0xffffffffLL, INT64_MAX};
+            if (s.boolean()) h.rawsize_delta = deltas[s.draw(6)];
+            else h.rawsize_abs = abss[s.draw(7)];
+            break;
+        }
+        case 3: {
+            static const int64_t gr[] = {0, -1, -100, 1, INT32_MAX, INT64_MAX, INT64_MIN, 1LL << 40};
+            h.set_granularity = true;
+            h.granularity = gr[s.draw(8)];
+            break;
+        }
+        default: {
+            static const int64_t gr[] = {0, -1, -1000, 1, INT32_MAX, INT64_MAX, INT64_MIN, 1LL << 40};
+            h.set_date_granularity = true;
+            h.date_granularity = gr[s.draw(8)];
+            break;
+        }
+    }
+    return h;
+}
+
+inline Made small_file(Src& s, int fmt, size_t max_objects = 8, bool changesets = true, size_t min_objects = 0, enc::PbfEncoder::Hostile* hostile = nullptr) {
     Made m;
     m.fmt = fmt;
     enc::PbfPlan plan;
@@ -63,6 +100,7 @@ inline Made small_file(Src& s, int fmt, size_t max_objects = 8, bool changesets 
     switch (fmt) {
         case 0: {
             enc::PbfEncoder e{s, ch, plan, history};
+            e.hostile = hostile;
             m.bytes = e.encode(m.hdr, m.data);
             m.format = "pbf";
             break;
